@@ -520,7 +520,16 @@ fn to_string_moved(
             } else {
                 ";"
             };
-            let mut parts: Vec<String> = parameters.iter().map(|p| p.name.clone()).collect();
+            let mut parts: Vec<String> = parameters
+                .iter()
+                .map(|p| {
+                    if p.is_optional {
+                        format!("[{}]", p.name)
+                    } else {
+                        p.name.clone()
+                    }
+                })
+                .collect();
             parts.push(to_string_moved(body, move_context, locale, language));
             format!("LAMBDA({})", parts.join(arg_sep))
         }
